@@ -44,20 +44,22 @@ def pduGetBulk : Nat := 0xa5
 def pduGet : Nat := 0xa0
 def pduGetNext : Nat := 0xa1
 
+/-- three INTEGERs in a row (`asn_parse_int` x 3): the values, the offset behind them, the remaining length -/
+def int3 (fx : Bool) (m : Mem) (q cl : Nat) : T (Int × Int × Int × Nat × Nat) :=
+  (parseInt fx m q cl).bind fun (a, q1, l1) =>
+  (parseInt fx m q1 l1).bind fun (b, q2, l2) =>
+  (parseInt fx m q2 l2).bind fun (c, q3, l3) =>
+    T.ok (a, b, c, q3, l3) 0
+
 /-- `snmp_pdu_decode`: `(pdu without variables, offset of the variable bindings, remaining length)`.
-`asn_parse_header` replaces `*Length` by the length of the PDU contents. -/
+`asn_parse_header` replaces `*Length` by the length of the PDU contents.  Both branches of the `switch (PDUType)` read three
+INTEGERs: request-id, non-repeaters, max-repetitions for GETBULK, request-id, error-status, error-index otherwise
+(the trap branch is compiled out: `TRP_REQ_MSG` is not defined). -/
 def pduDecode (fx : Bool) (m : Mem) (p dl : Nat) : T (Pdu × Nat × Nat) :=
   (parseHeader fx m p dl).bind fun (ty, q, cl) =>
-    if ty = pduGetBulk then
-      (parseInt fx m q cl).bind fun (reqid, q1, l1) =>
-      (parseInt fx m q1 l1).bind fun (nr, q2, l2) =>
-      (parseInt fx m q2 l2).bind fun (mr, q3, l3) =>
-        T.ok (⟨ty, reqid, -1, -1, nr, mr, []⟩, q3, l3) 0
-    else
-      (parseInt fx m q cl).bind fun (reqid, q1, l1) =>
-      (parseInt fx m q1 l1).bind fun (es, q2, l2) =>
-      (parseInt fx m q2 l2).bind fun (ei, q3, l3) =>
-        T.ok (⟨ty, reqid, es, ei, 0, 0, []⟩, q3, l3) 0
+    (int3 fx m q cl).bind fun (a, b, c, q3, l3) =>
+      if ty = pduGetBulk then T.ok (⟨ty, a, -1, -1, b, c, []⟩, q3, l3) 0
+      else T.ok (⟨ty, a, b, c, 0, 0, []⟩, q3, l3) 0
 
 /-- the value part of one variable binding: `dp`/`dlen` = DataPtr/DataLen (offset behind the name, octets left in this
 binding).  Success: `(type, value, offset to go on from)`. -/
